@@ -4,6 +4,7 @@ import (
 	"bytes"
 	"encoding/json"
 	"fmt"
+	"reflect"
 
 	"github.com/Eyevinn/mp4ff/aac"
 	"github.com/Eyevinn/mp4ff/avc"
@@ -37,7 +38,7 @@ func c19NrParams(kind int) int {
 	case 21:
 		return 3 * 8 * 2 * 3 * 2
 	case 22:
-		return 3 * 3 * 8 * 2 * 2
+		return 3 * 3 * 8 * 2 * 2 * 3
 	case 23:
 		return 3 * 2 * 3
 	}
@@ -72,7 +73,13 @@ func c19Dec3(par int) *mp4.Dec3Box {
 	if par%2 == 1 {
 		sub.NumDepSub, sub.ChanLoc = 1, 0x1a5
 	}
+	par /= 2
 	d.EC3Subs = []mp4.EC3Sub{sub}
+	// one to three independent substreams (the count is carried by the length of EC3Subs)
+	for k := 1; k <= par%3; k++ {
+		extra := mp4.EC3Sub{FSCod: sub.FSCod, BSID: 16, ACMod: byte((int(sub.ACMod) + k) % 8), LFEOn: byte(k % 2)}
+		d.EC3Subs = append(d.EC3Subs, extra)
+	}
 	return d
 }
 
@@ -354,7 +361,7 @@ func c19Run(c *vf.Ctx, h *c19History) string {
 				}
 			case 22:
 				w := c19Dec3(op.Par)
-				if stsd.EC3 == nil || stsd.EC3.Dec3 == nil || stsd.EC3.Dec3.DataRate != w.DataRate || len(stsd.EC3.Dec3.EC3Subs) != 1 || stsd.EC3.Dec3.EC3Subs[0] != w.EC3Subs[0] {
+				if stsd.EC3 == nil || stsd.EC3.Dec3 == nil || stsd.EC3.Dec3.DataRate != w.DataRate || !reflect.DeepEqual(stsd.EC3.Dec3.EC3Subs, w.EC3Subs) || len(stsd.EC3.Dec3.Reserved) != 0 {
 					return fail("ec-3 config "+where, "ec-3 entry carries the supplied dec3", fmt.Sprintf("track %d: %+v want %+v", i, stsd.EC3, w))
 				}
 				if int(stsd.EC3.SampleRate) != mp4.AC3SampleRates[w.EC3Subs[0].FSCod] {
